@@ -19,6 +19,7 @@ import time
 import traceback
 
 import z3
+from decimal import Decimal as _Decimal
 
 
 class PathAbort(BaseException):
@@ -361,6 +362,10 @@ def _t(x):
         return z3.IntVal(x)
     if isinstance(x, SymBool):
         return z3.If(x.t, z3.IntVal(1), z3.IntVal(0))
+    if isinstance(x, float) and x.is_integer() and abs(x) < 2 ** 52:
+        return z3.IntVal(int(x))          # an integral float (Time.from_seconds) combines with ints exactly in this range
+    if isinstance(x, _Decimal) and x.is_finite() and x == x.to_integral_value():
+        return z3.IntVal(int(x))          # an integral Decimal (a parsed TIMEX amount) mixes with ints exactly
     return None
 
 
@@ -552,6 +557,8 @@ class SymInt:
         return o % int(self)
 
     def __truediv__(self, o):
+        if isinstance(o, int) and not isinstance(o, bool) and o > 0:
+            return SymQuot(self, o)
         return int(self) / o
 
     def __rtruediv__(self, o):
@@ -620,6 +627,12 @@ class SymInt:
     def __trunc__(self):
         return self
 
+    def __floor__(self):
+        return self
+
+    def __ceil__(self):
+        return self
+
     def __repr__(self):
         return 'SymInt(%s)' % self.t
 
@@ -628,6 +641,92 @@ class SymInt:
 
     def __format__(self, spec):
         return FORMAT_HOOK[0](self, spec)
+
+
+class SymQuot:
+    """`n / d` for a symbolic int n and a concrete positive int d, kept as an exact quotient.  Python computes a float here;
+    the model is exact where the float computation is: floor() (|n| < 2**53 and d < 2**32 keep n/d away from the next integer
+    by more than an ulp), comparisons, and multiplication back by a multiple of d when d divides n (then n/d is an integer
+    float).  Anything else -- formatting, arithmetic with an inexact quotient -- ends the path as not encodable."""
+    __slots__ = ('n', 'd')
+
+    def __init__(self, n, d):
+        self.n, self.d = n, d
+
+    def __floor__(self):
+        return self.n // self.d
+
+    def __ceil__(self):
+        return -((-self.n) // self.d)
+
+    def _exact(self):
+        if self.n % self.d == 0:
+            return self.n // self.d
+        raise NotImplementedError('symx: arithmetic on an inexact float quotient is not modelled')
+
+    def __mul__(self, o):
+        if isinstance(o, int) and not isinstance(o, bool) and o % self.d == 0:
+            return self.n * (o // self.d)
+        return self._exact() * o
+
+    __rmul__ = __mul__
+
+    def __add__(self, o):
+        return self._exact() + o
+
+    __radd__ = __add__
+
+    def __sub__(self, o):
+        return self._exact() - o
+
+    def __rsub__(self, o):
+        return o - self._exact()
+
+    def _other(self, o):
+        if isinstance(o, SymQuot):
+            return self.n * o.d, o.n * self.d
+        return self.n, o * self.d
+
+    def __lt__(self, o):
+        a, b = self._other(o)
+        return a < b
+
+    def __le__(self, o):
+        a, b = self._other(o)
+        return a <= b
+
+    def __gt__(self, o):
+        a, b = self._other(o)
+        return a > b
+
+    def __ge__(self, o):
+        a, b = self._other(o)
+        return a >= b
+
+    def __eq__(self, o):
+        a, b = self._other(o)
+        return a == b
+
+    def __ne__(self, o):
+        a, b = self._other(o)
+        return a != b
+
+    def __hash__(self):
+        return hash(self._exact())
+
+    def __int__(self):
+        return int(self.n // self.d) if self.n >= 0 else -int((-self.n) // self.d)
+
+    def __float__(self):
+        return int(self.n) / self.d
+
+    def __str__(self):
+        raise NotImplementedError('symx: formatting a float quotient is not modelled')
+
+    __repr__ = __str__
+
+    def __format__(self, spec):
+        raise NotImplementedError('symx: formatting a float quotient is not modelled')
 
 
 def _default_format(x, spec):
@@ -773,4 +872,28 @@ def selftest():
     want = sorted((a, b, c) for a in range(4) for b in range(3) for c in (False, True))
     if r.get('state') != 'discharged' or sorted(seen) != want:
         raise RuntimeError('symx selftest failed: %r; visited %d points (%d distinct) of %d' % (r.get('state'), len(seen), len(set(seen)), len(want)))
+    # the exact-quotient model of `n / d` agrees with Python's float arithmetic on the operations it supports
+    from math import floor as _floor
+    bad = []
+
+    def quot(n: int):
+        assume(0 <= n <= 90000000)
+        h = _floor(n / 3600000)
+        mnt = _floor((n - h * 3600000) / 60000)
+        sec = (n - h * 3600000 - mnt * 60000) / 1000
+        if not (0 <= mnt <= 59 and 0 <= h <= 25):
+            bad.append('range')
+        if sec * 1000 + mnt * 60000 + h * 3600000 != n:
+            bad.append('roundtrip')
+        if not (sec < 60):
+            bad.append('sec')
+    r2 = explore(quot, 30)
+    if r2.get('state') != 'discharged' or bad:
+        raise RuntimeError('symx selftest (quotient) failed: %r %r' % (r2.get('state'), bad))
+    for n in (0, 999, 1000, 3599999, 3600000, 86399000, 86400000 - 1):
+        hh = _floor(n / 3600000)
+        mm = _floor((n - hh * 3600000) / 60000)
+        ss = (n - hh * 3600000 - mm * 60000) / 1000
+        if (hh, mm) != (n // 3600000, n % 3600000 // 60000) or ss * 1000 + mm * 60000 + hh * 3600000 != n:
+            raise RuntimeError('symx selftest: float quotient disagrees with the exact model at %d' % n)
     return len(seen)
